@@ -946,6 +946,10 @@ def expr_sig(body, op, depth=0, seen=None, out=None):
             rv = d[3]
             k = rv.get("k")
             if k in ("use", "cast", "repeat"):
+                if _FORM_FIELDS and "p" in rv["o"] and not (1 <= rv["o"]["p"][0] <= body.argc and not body.defs().get(rv["o"]["p"][0])):
+                    fl = [str(x) for x in rv["o"]["p"][1] if str(x).startswith(".")]
+                    if fl and not body._is_overflow_tuple(rv["o"]["p"][0]):
+                        out.append("fld:" + fl[-1].split("::")[-1].lstrip("."))
                 expr_sig(body, rv["o"], depth + 1, seen, out)
             elif k == "ref":
                 expr_sig(body, {"p": rv["p"]}, depth + 1, seen, out)
@@ -963,6 +967,10 @@ def expr_sig(body, op, depth=0, seen=None, out=None):
             elif k == "agg":
                 if rv.get("ak") == "tuple" or rv.get("variant") in ("Some", "Ok") or (rv.get("ak") == "adt" and len(rv.get("ops", [])) == 1):
                     # tuples and single-payload wrappers (Some(x), SeekFrom::Start(x), Capacity(x)) carry their payload's form
+                    for o in rv.get("ops", []):
+                        expr_sig(body, o, depth + 1, seen, out)
+                elif _FORM_FIELDS and rv.get("ak") == "adt" and rv.get("ops"):
+                    out.append("agg:%s%s" % (str(rv.get("adt")).split("::")[-1], ("::" + rv["variant"]) if rv.get("variant") else ""))
                     for o in rv.get("ops", []):
                         expr_sig(body, o, depth + 1, seen, out)
                 else:
@@ -1260,7 +1268,7 @@ def _callname(c):
     return "call:" + "::".join(re.sub(r"<[^<>]*>", "", re.sub(r"<[^<>]*>", "", c.callee)).split("::")[-2:])
 
 
-def decision_sites(body, local=0, ignore=None):
+def decision_sites(body, local=0, ignore=None, matches=False):
     """[(normalised (op, A-form, B-form, labels-if-true, labels-if-false), site)] for every decision of `body`:
     comparisons that are branched on or returned as the value of `local`, and bool-valued calls / flags that are branched on
     (op 'if', A = (callee, receiver form..) or the flag's form). Labels are the forms of the first value assigned to `local`
@@ -1316,10 +1324,39 @@ def decision_sites(body, local=0, ignore=None):
                 continue
             site = _BoolSite(body, sw, d, body.blocks[sw]["t"].get("line") or body.line)
             out.append((("if", ("flag",) + f, (), frozenset(ret_labels(body, tt, local)), frozenset(ret_labels(body, ft, local))), site))
+    if matches:
+        # enum matches: one decision per variant arm (error propagation through `?` = ControlFlow is left out)
+        for i, blk in enumerate(body.blocks):
+            t = blk["t"]
+            if t.get("k") != "switch" or "p" not in t["d"] or t["d"]["p"][1]:
+                continue
+            for d in body.defs().get(t["d"]["p"][0], []):
+                if d[0] != "assign" or d[3].get("k") != "discr":
+                    continue
+                rv = d[3]
+                adt = str(rv.get("adt"))
+                if adt.endswith("ops::control_flow::ControlFlow"):
+                    continue
+                names = {v[0]: v[1] for v in rv.get("vars", [])}
+                scrut = form(body, {"p": rv["p"]})
+                if skip(scrut):
+                    continue
+                targets = [(names.get(val, val), tgt) for val, tgt in t["vals"]]
+                allv = [v[1] for v in rv.get("vars", [])]
+                rest = [v for v in allv if v not in [n for n, _ in targets]]
+                if t.get("else") is not None and rest:
+                    targets.append(("|".join(sorted(rest)), t["else"]))
+                site = _BoolSite(body, i, t["d"]["p"][0], d[4] if len(d) > 4 and isinstance(d[4], int) else (t.get("line") or body.line))
+                for nm, tgt in targets:
+                    others = set()
+                    for n2, t2 in targets:
+                        if t2 != tgt:
+                            others |= ret_labels(body, t2, local)
+                    out.append((("match", (adt.split("::")[-1] + "::" + nm,), scrut, frozenset(ret_labels(body, tgt, local)), frozenset(others)), site))
     return out
 
 
-def decision_table(R, key, body, expect, what="", local=0, ignore=None):
+def decision_table(R, key, body, expect, what="", local=0, ignore=None, matches=False):
     """The set of branched comparisons of body equals the frozen table `expect`
     (list of (op, A-form, B-form, labels-if-true, labels-if-false), op in lt/le/eq after normalisation)."""
     R.fn(body)
